@@ -7,7 +7,7 @@
   tuple-unpack index, the UNIX path expression or the inode-merge statement changes.
   The host's endianness is *not* part of `Cfg.Good`: every theorem below holds for both.
 -/
-import PsutilModel.Proofs.C11World
+import PsutilModel.Proofs.C11Retrieve
 import PsutilModel.Model.C11Gen
 set_option linter.unusedSimpArgs false
 namespace Psutil.C11
@@ -145,10 +145,6 @@ theorem C11_kind_table_front (k : String) (hk : k ∈ kinds) (f : Fam) (typ : Na
   constructor
   · intro hne; simpa [hne] using this
   · intro he; simpa [he] using this
-
-/-- the five `(file, family, type)` classes of `/proc/net` -/
-def canonicalEntries : List TEntry :=
-  [("tcp", 2, some 1), ("tcp6", 10, some 1), ("udp", 2, some 2), ("udp6", 10, some 2), ("unix", 1, none)]
 
 /-- **C11_kind_files.** Every entry of every `tmap[kind]` names the file that holds its class
     (`tcp` ↔ AF_INET/STREAM, `tcp6` ↔ AF_INET6/STREAM, `udp` ↔ AF_INET/DGRAM, `udp6` ↔ AF_INET6/DGRAM,
